@@ -548,11 +548,37 @@ class SLut(SV):
             return Intrinsic("dict.copy", lambda it_: SLut(self.term, self.label + "_copy"))
         if name == "keys":
             return Intrinsic("dict.keys", lambda it_: self)
+        if name == "update":
+            def update(it_, other):
+                # table.update(<dict with concrete keys>): every key of the other dict now holds that dict's
+                # row (an explicit row whose content is not modelled), every other key is untouched; stated at
+                # the key the contracts' full-view postconditions speak about
+                if isinstance(other, SLut):
+                    # table.update(<another table>): the other table's rows win
+                    new = SLut.fresh(it_, self.label + "_updated")
+                    for k in (z3.String("arbitrary_key"),):
+                        o = z3.Select(other.term, k)
+                        it_.assume(z3.Select(new.term, k) == z3.If(RowSort.present(o), o, z3.Select(self.term, k)))
+                    self.term = new.term
+                    return None
+                if not isinstance(other, dict) or not all(isinstance(k_, str) for k_ in other):
+                    raise Unsupported("table.update(%r)" % (type(other).__name__,))
+                new = SLut.fresh(it_, self.label + "_updated")
+                rows = z3.Function("row_of_updating_dict", z3.StringSort(), RowSort)
+                for k in (z3.String("arbitrary_key"),):
+                    inside = z3.Or(*[k == z3.StringVal(k_) for k_ in other]) if other else z3.BoolVal(False)
+                    it_.assume(z3.Select(new.term, k) == z3.If(inside, rows(k), z3.Select(self.term, k)))
+                    it_.assume(z3.And(RowSort.present(rows(k)), z3.Not(RowSort.derived(rows(k)))))
+                self.term = new.term
+                return None
+            return Intrinsic("dict.update", update)
         raise Unsupported("dict method %s on unit table" % name)
 
     def sv_truth(self, it):
         # a dict is falsy exactly when it is empty; emptiness is instantiated at the key the
         # contracts' full-view postconditions speak about
+        if getattr(self, "known_nonempty", False):
+            return True                      # stated by the contract that made this table (a precondition)
         b = it.fresh_bool("table_nonempty")
         it.assume(z3.Implies(z3.Not(b), z3.Not(RowSort.present(z3.Select(self.term, z3.String("arbitrary_key"))))))
         return b
@@ -760,6 +786,14 @@ class UnytDomain:
         if obj.cls.name == "Unit" and name == "expr" and isinstance(value, SDim) \
                 and not is_z3(value.ref) and value.ref == REF_ONE:
             obj.fields["expr"] = SExpr(E_ONE)      # sympy's S.One used as a unit expression
+            return True
+        if name == "_unit_object_cache" and isinstance(value, dict) and not value \
+                and obj.cls.name.endswith("UnitRegistry"):
+            # a registry's fresh memo: the empty key set (later stores have symbolic string keys); Units
+            # memoised by a registry are bound to it (Unit.__new__ string path, contracts/parsing.py)
+            c = SCache(z3.K(z3.StringSort(), z3.BoolVal(False)), "fresh_memo")
+            c.reader = lambda it_, key, _reg=obj: make_unit(it_, "memoised", registry=_reg)
+            obj.fields[name] = c
             return True
         return False
 
